@@ -218,6 +218,23 @@ def setup_directive_only():
   if not _DOF:
     f = T.make_directive_only_free_var()
     _DOF.extend([f, malt.to_graph(f)])
+    f2, setter = T.make_directive_only_free_var_sorted_first()
+    _DOF.extend([f2, malt.to_graph(f2), setter])
+
+
+def directive_only_sorted_first(a: int, v: int) -> bool:
+  """
+  pre: -2 <= a <= 5 and 0 <= v <= 4
+  post: _
+  """
+  f, g, setter = _DOF[2], _DOF[3], _DOF[4]
+  r1 = rt.same_obs(rt.obs(f, (a,)), rt.obs(g, (a,)))
+  setter(v)
+  try:
+    r2 = rt.same_obs(rt.obs(f, (a,)), rt.obs(g, (a,))) and g(a)[1] == v
+  finally:
+    setter(4)
+  return r1 and r2
 
 
 def reach_twin(v0: int, v1: int, v2: int, v3: int, v4: int) -> bool:
